@@ -6942,7 +6942,7 @@ func NewLsTLVLocalIPv6RouterID(l *netip.Addr) *LsTLVLocalIPv6RouterID {
 	return &LsTLVLocalIPv6RouterID{
 		LsTLV: LsTLV{
 			Type:   LS_TLV_IPV6_LOCAL_ROUTER_ID,
-			Length: 0,
+			Length: net.IPv6len,
 		},
 		IP: *l,
 	}
@@ -6999,7 +6999,7 @@ func NewLsTLVRemoteIPv6RouterID(l *netip.Addr) *LsTLVRemoteIPv6RouterID {
 	return &LsTLVRemoteIPv6RouterID{
 		LsTLV: LsTLV{
 			Type:   LS_TLV_IPV6_REMOTE_ROUTER_ID,
-			Length: 4,
+			Length: net.IPv6len,
 		},
 		IP: *l,
 	}
@@ -10020,7 +10020,7 @@ func NewLsTLVPrefixSID(l *uint32) *LsTLVPrefixSID {
 	return &LsTLVPrefixSID{
 		LsTLV: LsTLV{
 			Type:   LS_TLV_PREFIX_SID,
-			Length: 0,
+			Length: 8, // Flags (1) + Algorithm (1) + Reserved (2) + SID as a 4-octet index
 		},
 		Flags:     flags, // TODO: Implementation for IGP
 		Algorithm: 0,     // TODO: Implementation for IGP
@@ -10366,7 +10366,7 @@ func NewLsTLVOpaquePrefixAttr(l *[]byte) *LsTLVOpaquePrefixAttr {
 	return &LsTLVOpaquePrefixAttr{
 		LsTLV: LsTLV{
 			Type:   LS_TLV_OPAQUE_PREFIX_ATTR,
-			Length: 0,
+			Length: uint16(len(*l)),
 		},
 		Attr: *l,
 	}
